@@ -102,11 +102,21 @@ public:
   void operator<<(const std::string& s) {
     write(s.c_str(), s.size());
   }
-  // below we don't check the buffer boundary, these functions add <512 bytes
+  // put() doesn't check the buffer boundary, it is called only a few times
+  // in a row (much less than 512) between calls to write() or pad()
   void put(char c) {
     *ptr++ = c;
   }
   void pad(size_t n) {
+    constexpr size_t margin = sizeof(buf) - 512;
+    // padding that doesn't fit is written out in chunks
+    while (ptr - buf + n > margin) {
+      size_t k = size_t(ptr - buf) < margin ? margin - (ptr - buf) : 0;
+      std::memset(ptr, ' ', k);
+      ptr += k;
+      n -= k;
+      flush();
+    }
     std::memset(ptr, ' ', n);
     ptr += n;
   }
